@@ -59,6 +59,10 @@ typedef struct {
       { { POP2, E }, { POP, E }, { P2(1, 2), SZ, E } }, 0 },                          \
     { KN " SPMC popwait|popwait|push (one stays empty)", 0, K, ABT_POOL_ACCESS_SPMC, \
       0, 3, { { PW, E }, { PW, E }, { P(0), E } }, 0 },                               \
+    { KN " MPMC init2 remove(head)|pop|pop (same unit contended)", Q, K,          \
+      ABT_POOL_ACCESS_MPMC, 2, 3, { { RM(0), E }, { POP, E }, { POP, E } }, 0 },     \
+    { KN " MPMC init3 remove(mid)|remove(mid)|pop2", 0, K, ABT_POOL_ACCESS_MPMC,  \
+      3, 3, { { RM(1), E }, { RM(1), E }, { POP2, E } }, 0 },                         \
     { KN " PRIV sequential depth5", Q, K, ABT_POOL_ACCESS_PRIV, 0, 0, { { E } }, 5 }
 
 static const cfg_t cfgs[] = {
@@ -247,7 +251,7 @@ static int apply(dq *d, const hrec *r)
                 if (d->q[i] == r->a)
                     pos = i;
             if (pos < 0)
-                return r->n != ABT_SUCCESS; /* cannot happen in conforming mixes */
+                return r->n != ABT_SUCCESS; /* somebody else took it first */
             if (r->n != ABT_SUCCESS)
                 return 0;
             memmove(&d->q[pos], &d->q[pos + 1], sizeof(int) * (d->n - pos - 1));
